@@ -10,8 +10,8 @@ func init() {
 		Technique:   "stateful property-based testing (rapid) against a reference model; race-detector stress",
 		DesignRef:   "DESIGN.md section 3, C20",
 		Runs: []run{
-			{Test: "TestC20_Seq", Quick: 3000, Thorough: 40000},
-			{Test: "TestC20_Conc", Quick: 150, Thorough: 1500, Race: true, Shards: 8},
+			{Test: "TestC20_Seq", Quick: 3000, Thorough: 240000},
+			{Test: "TestC20_Conc", Quick: 150, Thorough: 9000, Race: true, Shards: 8},
 		},
 	})
 }
